@@ -54,7 +54,7 @@ def run(ctx):
             return torch.equal(a.to(torch.float64) if not torch.is_complex(a) else a, b.to(torch.float64) if not torch.is_complex(b) else b)
         return torch.allclose(a, b.to(a.dtype), rtol=2e-5, atol=1e-7, equal_nan=True)
 
-    def check(name, cls, f, items, exact=True, n_in=None, multiblock=True, nested=True, one_d=True, kw=None):
+    def check(name, cls, f, items, exact=True, n_in=None, multiblock=True, nested=True, one_d=True, kw=None, fresh=None):
         """f: callable on tensors; items: list of 1-D tensors (one sample / block each)"""
         kw = kw or {}
         key = "C20/%s/%%s" % cls
@@ -80,6 +80,18 @@ def run(ctx):
                 ctx.violation(key % "repeated-call", "%s: the same input gives a different answer on a later call (item %d after %d other calls)" % (name, i, 2 * len(items) - 1 - i), rep)
                 return
         ctx.count("single-calls", 2 * len(items))
+        # a freshly built object answers each member the same way as the object that has already seen the others
+        if fresh is not None:
+            for i, it in enumerate(items):
+                try:
+                    fr = quiet(quiet(fresh), it.unsqueeze(0), **kw)[0]
+                except Exception:
+                    break
+                ctx.count("fresh-object-calls")
+                if not same(fr, singles[i], exact):
+                    ctx.violation(key % "history-dependent", "%s: member %d is answered %s by an object that has seen the other members and %s by a freshly built one" % (
+                        name, i, singles[i].reshape(-1).tolist()[:12], fr.reshape(-1).tolist()[:12]), rep)
+                    return
         # 1-D call
         if one_d:
             try:
@@ -222,7 +234,7 @@ def run(ctx):
             if kind == "soft":
                 recv = [(1 - 2 * r) * torch.tensor([rng.choice([0.5, 1.0, 2.0, 4.0]) for _ in range(n)]) for r in recv]
                 recv[-1][0] = 0.0                # an exact tie
-            check("%s %s" % (cname, dname), "%s/decode" % dname.split("[")[0], dec, recv, exact=True, n_in=n)
+            check("%s %s" % (cname, dname), "%s/decode" % dname.split("[")[0], dec, recv, exact=True, n_in=n, fresh=(lambda mkd=mkd, enc=enc: mkd(enc)))
             if kind == "hard":
                 # the same words in other dtypes a caller may hold them in: same answer, input left alone
                 ref = [quiet(dec, r.unsqueeze(0))[0].to(torch.float64) for r in recv]
@@ -252,6 +264,41 @@ def run(ctx):
                 except Exception:
                     continue
                 check("%s %s(return_errors=True)" % (cname, dname), "%s/decode-errors" % dname.split("[")[0], with_errors, recv, exact=True, multiblock=False, nested=False, one_d=False)
+    # long words that differ only in their last positions, decoded in one batch and one after the other by the same object
+    for cname, mk, dmk in (("BCH(31,21)", lambda: E.BCHCodeEncoder(mu=5, delta=5), lambda e: D.BerlekampMasseyDecoder(e)),
+                           ("BCH(31,16)", lambda: E.BCHCodeEncoder(mu=5, delta=7), lambda e: D.BerlekampMasseyDecoder(e)),
+                           ("BCH(31,21,right)", lambda: E.BCHCodeEncoder(mu=5, delta=5, information_set="right"), lambda e: D.BerlekampMasseyDecoder(e)),
+                           ("Hamming(5)", lambda: E.HammingCodeEncoder(mu=5), lambda e: D.SyndromeLookupDecoder(e)),
+                           ("ReedMuller(1,5)", lambda: E.ReedMullerCodeEncoder(1, 5), lambda e: D.ReedMullerDecoder(e))):
+        try:
+            enc = quiet(mk)
+            dec = quiet(dmk, enc)
+        except Exception as ex:
+            ctx.note("%s: %s" % (cname, str(ex)[:60]))
+            continue
+        n, k = int(enc.code_length), int(enc.code_dimension)
+        base = quiet(enc, torch.tensor([[1.0] + [float(rng.randint(0, 1)) for _ in range(k - 1)]]))[0]
+        recv = []
+        for j in range(6):
+            r = base.clone()
+            r[n - 1 - j] = 1 - r[n - 1 - j]          # one error, among the last positions
+            if j % 2:
+                r[n - 2 - j] = 1 - r[n - 2 - j]      # or two
+            recv.append(r)
+        check("%s near-duplicate words" % cname, "%s/decode-near-duplicates" % type(dec).__name__, dec, recv, exact=True, n_in=n, multiblock=False, nested=False, fresh=(lambda dmk=dmk, enc=enc: dmk(enc)))
+
+        def both(x, dec=dec):
+            out = dec(x, return_errors=True)
+            return torch.cat([out[0].to(torch.float32), out[1].to(torch.float32)], dim=-1) if isinstance(out, tuple) else out
+
+        def fresh_both(dmk=dmk, enc=enc):
+            d_ = dmk(enc)
+            return lambda x: (lambda o: torch.cat([o[0].to(torch.float32), o[1].to(torch.float32)], dim=-1) if isinstance(o, tuple) else o)(d_(x, return_errors=True))
+        try:
+            quiet(both, recv[0].unsqueeze(0))
+            check("%s near-duplicate words (message and error pattern)" % cname, "%s/decode-near-duplicates" % type(dec).__name__, both, recv, exact=True, multiblock=False, nested=False, one_d=False, fresh=fresh_both)
+        except Exception:
+            pass
     ctx.log("codes done", len(exprs))
 
     # ------------------------------------------------------------------ modulators / demodulators
